@@ -82,8 +82,8 @@ func mutate(r *rand.Rand, text string, pool []string) string {
 // of them a keyword takes is listed in decorable. Resolver code paths that copy or
 // annotate entries (when, if-feature, status, reference, extensions) only run when these
 // are present, so every hazard is also tried in their company.
-var decorations = map[byte]string{'w': `when "x";`, 'f': `if-feature feat;`, 's': `status deprecated;`, 'r': `reference "r";`, 'd': `description "d";`, 'm': `must "x";`, 'e': `x:ext "e";`, 'c': `config false;`, 'p': `presence "p";`}
-var decorable = map[string]string{"uses": "wfsrde", "leaf": "wfsrdmec", "leaf-list": "wfsrdmec", "container": "wfsrdmecp", "list": "wfsrdmec", "choice": "wfsrdec", "case": "wfsrde", "anyxml": "wfsrdmec", "anydata": "wfsrdmec", "augment": "wfsrde", "rpc": "fsrde", "action": "fsrde", "notification": "fsrdme", "grouping": "srde", "typedef": "srde", "identity": "fsrde", "input": "me", "output": "me", "deviation": "rde", "import": "rde", "include": "rde", "enum": "fsrde", "bit": "fsrde", "refine": "fde", "feature": "fsrde", "type": "e", "module": "e", "submodule": "e"}
+var decorations = map[byte]string{'w': `when "x";`, 'f': `if-feature feat;`, 's': `status deprecated;`, 'r': `reference "r";`, 'd': `description "d";`, 'm': `must "x";`, 'e': `x:ext "e";`, 'c': `config false;`, 'p': `presence "p";`, 'g': `ghost:posix-pattern "x";`, 'o': `ocx:posix-pattern "^a$";`, 'q': `pattern "[a";`}
+var decorable = map[string]string{"uses": "wfsrde", "leaf": "wfsrdmec", "leaf-list": "wfsrdmec", "container": "wfsrdmecp", "list": "wfsrdmec", "choice": "wfsrdec", "case": "wfsrde", "anyxml": "wfsrdmec", "anydata": "wfsrdmec", "augment": "wfsrde", "rpc": "fsrde", "action": "fsrde", "notification": "fsrdme", "grouping": "srde", "typedef": "srde", "identity": "fsrde", "input": "me", "output": "me", "deviation": "rde", "import": "rde", "include": "rde", "enum": "fsrde", "bit": "fsrde", "refine": "fde", "feature": "fsrde", "type": "egoq", "module": "e", "submodule": "e"}
 
 // decorate gives about one in three decorable statements one to three extra substatements.
 func decorate(r *rand.Rand, text string) string {
